@@ -254,7 +254,7 @@ def gen_plan(rng, tier="quick", prop="C18"):
     need_fresh = [False]
     length = rng.randint(3, 12 if tier == "quick" else 24)
     if prop == "C18":
-        weights = {"call": 7, "bad": 1, "edit": 3.5, "native": 1.5, "new": 1.2, "reader": 1.0, "writer": 0.3, "readfile": 0.3, "construct": 0.6, "reconstruct": 0.25, "readsample": 1.2,
+        weights = {"call": 7, "bad": 1, "edit": 3.5, "native": 1.5, "new": 1.2, "reader": 1.0, "writer": 0.8, "readfile": 0.4, "construct": 0.6, "reconstruct": 0.25, "readsample": 1.2,
                    "churn": 0.09}
     else:
         weights = {"call": 6, "bad": 1.5, "edit": 0.8, "native": 0.3, "new": 1.0, "reader": 2.0, "writer": 3.0, "readfile": 0.8, "construct": 1.0, "reconstruct": 0.3, "readsample": 0.6}
